@@ -856,3 +856,9 @@ Proof.
               (eq_trans (xplane_sign _ _) Sn) (eq_trans (xplane_sign _ _) Sp) (eq_trans (xplane_sign _ _) Sp))).
     reflexivity.
 Qed.
+
+Theorem only_value_error pl p e : sliced_by_plane ROps pl p = Raise e -> e = ValueError.
+Proof.
+  destruct p as [vs closed]. unfold sliced_by_plane, slice_any. cbn [pclosed pv].
+  destruct (closed && (1 <? length vs)%nat); [apply closed_raise|apply core_raise].
+Qed.
